@@ -118,7 +118,7 @@ Fixpoint replay (n : nat) (g : list (nat * nat)) (directed : bool) (m : mm) (rou
         end
       else None
   | RSwap a b :: r =>
-      if Nat.ltb a n && Nat.ltb b n && on_edge g directed a b then
+      if Nat.ltb a n && Nat.ltb b n && negb (Nat.eqb a b) && on_edge g directed a b then
         let lq1 := nth a (p2l m) 0 in
         let lq2 := nth b (p2l m) 0 in
         match replay n g directed (apply_swap m lq1 lq2) r with
